@@ -126,7 +126,8 @@ def run(c, chk):
     else:
         raise report.Broken('search-path add/search shape not recognised (prepend=%s append=%s recurse_first=%s own_first=%s)' % (prepend, append, recurse_first, own_first))
 
-    # ---- R17.4 ---------------------------------------------------------------------------------
+    # ---- R17.4 / R17.5: every malloc()ed string buffer of confuse.c --------------------------------
+    from .. import bufsize
     nbuf = 0
     seen = set()
     for f in sorted(c.confuse.funcs.values(), key=lambda x: x.name):
@@ -135,40 +136,24 @@ def run(c, chk):
         for p in ex.explore(f):
             if p.end != 'ret':
                 continue
-            term = {}
-            for e in p.events:
-                if e.kind == 'call':
-                    if e.name == 'malloc':
-                        if ow.null_facts(p).get(e.res) is not True:
-                            term[e.res] = False
-                            nbuf += 1
+            for b_ in bufsize.analyse(p):
+                nbuf += 1
+                for e, why in b_.problems:
+                    rule = 'R17.4' if ('terminat' in why or 'uninitialised' in why) else 'R17.5'
+                    nm = e.name if e.kind == 'call' else e.kind
+                    key = '%s:%s:%s' % ('unterminated' if rule == 'R17.4' else 'buffer-size', f.name, nm)
+                    if key in seen:
                         continue
-                    for buf in list(term):
-                        if e.name in TERMINATING_WRITERS and len(e.args) > 0 and e.args[TERMINATING_WRITERS[e.name]] == buf:
-                            if e.name == 'strcat' and not term[buf]:
-                                pass
-                            else:
-                                term[buf] = True
-                        elif e.name in NONTERMINATING_WRITERS and e.args and e.args[0] == buf:
-                            pass
-                    if e.name in STRING_CONSUMERS:
-                        for k in STRING_CONSUMERS[e.name]:
-                            if k < len(e.args) and e.args[k] in term and not term[e.args[k]]:
-                                key = 'unterminated:%s:%s' % (f.name, e.name)
-                                if key not in seen:
-                                    seen.add(key)
-                                    chk.fail('R17.4', key, c.where(e.ins), '%s(): a malloc()ed buffer is passed to %s() before any terminating write: '
-                                             '%s reads uninitialised bytes past what was copied' % (f.name, e.name, e.name),
-                                             witness=[repr(x) for x in p.events[:8]])
-                elif e.kind == 'store' and e.val == sym.C0:
-                    r = sym.root_of(e.addr)
-                    if r in term or e.addr in term:
-                        term[r if r in term else e.addr] = True
-    if not seen:
-        chk.ok('R17.4', '%d malloc()ed buffers on all paths' % nbuf, 'each is terminated (strcpy/snprintf/explicit 0 store) before it is read as a string', sample=True)
+                    seen.add(key)
+                    chk.fail(rule, key, c.where(e.ins), '%s(): the buffer from malloc(%s) %s' % (f.name, b_.size, why),
+                             witness=[repr(x) for x in p.events[:10]])
+    if not any(k.startswith('unterminated') for k in seen):
+        chk.ok('R17.4', '%d malloc()ed buffers on all paths' % nbuf, 'each is NUL-terminated before it is read as a string or returned', sample=True)
+    if not any(k.startswith('buffer-size') for k in seen):
+        chk.ok('R17.5', 'buffer sizes', 'every write through strcpy/strcat/memcpy/strncpy/snprintf/store stays within the allocated size (linear size algebra over the measured lengths)', sample=True)
     chk.floor('R17.4 malloc buffers (path instances)', nbuf, 3)
 
-    # ---- R17.5 ---------------------------------------------------------------------------------
+    # tilde expansion: unknown user / no tilde -> a copy of the input; expansion = home directory + rest
     te = c.need('cfg_tilde_expand')
     nexp = 0
     okexp = True
@@ -186,30 +171,20 @@ def run(c, chk):
             if ev.args[0] != ('p', 'filename'):
                 okexp = False
                 chk.fail('R17.5', 'tilde-copy', c.where(ev.ins), 'the not-expanded result is a copy of %s, not of the input' % sym.render(ev.args[0]))
-            # the unknown-user path: getpwnam returned NULL
             if any(e.kind == 'call' and e.name == 'getpwnam' for e in p.events):
                 unknown_ok = True
             continue
         if ev.name == 'malloc':
             nexp += 1
-            cp = [e for e in p.events if e.kind == 'call' and e.name == 'strcpy' and e.args[0] == v]
-            ct = [e for e in p.events if e.kind == 'call' and e.name == 'strcat' and e.args[0] == v]
-            lens = [e for e in p.events if e.kind == 'call' and e.name == 'strlen']
-            if not (cp and ct):
+            # the two pieces copied in: the home directory first, then the rest of the input
+            copies = [e for e in p.events if e.kind == 'call' and e.name in ('strcpy', 'strcat', 'memcpy', 'llvm.memcpy.p0i8.p0i8.i64')
+                      and bufsize.split_ptr(e.args[0])[0] == v]
+            srcs = [sym.render(e.args[1]) for e in copies]
+            if len(copies) < 2 or not srcs[0].endswith('->pw_dir') or 'pw_dir' in srcs[1]:
                 okexp = False
-                chk.fail('R17.5', 'tilde-build', c.where(ev.ins), 'the expanded name is not built by strcpy(home) + strcat(rest)')
-                continue
-            a, b = cp[0].args[1], ct[0].args[1]
-            size = ev.args[0]
-            la = next((e.res for e in lens if sym.norm(e.args[0]) == sym.norm(a)), None)
-            lb = next((e.res for e in lens if sym.norm(e.args[0]) == sym.norm(b)), None)
-            want1 = ('bin', 'add', ('bin', 'add', la, lb), ('c', 1))
-            want2 = ('bin', 'add', ('bin', 'add', lb, la), ('c', 1))
-            if size not in (want1, want2):
-                okexp = False
-                chk.fail('R17.5', 'tilde-size', c.where(ev.ins), 'the result buffer is sized %s, not strlen(home)+strlen(rest)+1 for the strings copied into it' % sym.render(size))
+                chk.fail('R17.5', 'tilde-build', c.where(ev.ins), 'the expanded name is not the home directory followed by the rest of the input (copied: %s)' % srcs)
     if okexp and nexp and unknown_ok:
-        chk.ok('R17.5', 'cfg_tilde_expand', '%d expanding paths sized strlen(pw_dir)+strlen(rest)+1, filled by strcpy+strcat; unknown user / no tilde -> strdup(filename)' % nexp, sample=True)
+        chk.ok('R17.5', 'cfg_tilde_expand', '%d expanding paths: home directory then the rest of the name; unknown user / no tilde -> strdup(filename)' % nexp, sample=True)
     elif okexp and not unknown_ok:
         chk.fail('R17.5', 'tilde-unknown-user', c.where(te), 'there is no path on which an unknown user yields a copy of the input')
     chk.floor('R17.5 expanding paths', nexp, 2)
